@@ -40,6 +40,18 @@ type splitCase struct {
 	// long after the split listener started routing (a consumer that starts late, or backs off); a
 	// routed connection has to wait for them
 	LateConsumerMs int `json:"consumers_start_accepting_after_ms,omitempty"`
+	// CloseLookedUp: a second handle for this registered name is obtained (other native setting) and closed
+	// before routing starts
+	CloseLookedUp string `json:"second_handle_closed_for,omitempty"`
+}
+
+func registered0(names []string, n string) bool {
+	for _, x := range names {
+		if x == n {
+			return true
+		}
+	}
+	return false
 }
 
 type splitClient struct {
@@ -92,11 +104,19 @@ type delivery struct {
 
 func runSplitCase(c *engine.Ctx, s *world.Server, node *world.Node, sc splitCase) {
 	r := c.R
+	engine.LogInput("C17 %s", engine.J(sc))
 	lc := world.LWCfg{BaseTLS: baseTLSConfig(), NoAccept: true}
 	if sc.OwnSentinel {
 		// a base listener that announces closure with its own error (as multiplexing and
 		// in-memory listeners do), not one wrapping net.ErrClosed
 		lc.BaseCloseErr = errors.New("mux: listener closed")
+	}
+	if sc.Order%3 == 2 {
+		// the application shares one option list between its upstream Dial and this listener: it carries extra
+		// protocol names (registered ones among them); routing goes by what each client offered, not by this
+		lc.Options = s.Opts(nodeenrollment.WithExtraAlpnProtos([]string{"A", "B", "C"}))
+		lc.OptionsSet = true
+		r.Count("topologies_with_extra_protocols_in_listener_options", 1)
 	}
 	lw, err := world.NewLW(s, lc)
 	if err != nil {
@@ -175,6 +195,14 @@ func runSplitCase(c *engine.Ctx, s *world.Server, node *world.Node, sc splitCase
 		}
 		r.Count("topologies_with_repeated_lookups", 1)
 	}
+	if sc.CloseLookedUp != "" && registered0(names, sc.CloseLookedUp) {
+		// another component looks a registered name up with the other native setting and closes what it got:
+		// whatever that handle is, connections for that name are from now on closed, and nothing else changes
+		if h, err := sl.GetListener(sc.CloseLookedUp, nodeenrollment.WithNativeConns(!sc.Native)); err == nil {
+			_ = h.Close()
+			r.Count("topologies_with_a_closed_second_handle", 1)
+		}
+	}
 	startDone := make(chan error, 1)
 	go func() { startDone <- sl.Start() }()
 
@@ -183,6 +211,10 @@ func runSplitCase(c *engine.Ctx, s *world.Server, node *world.Node, sc splitCase
 	registered := map[string]bool{}
 	for _, n := range sc.Topology {
 		registered[n] = true
+	}
+	closedName := ""
+	if sc.CloseLookedUp != "" && registered[sc.CloseLookedUp] {
+		closedName = sc.CloseLookedUp
 	}
 
 	for ci, cl := range splitClients {
@@ -277,6 +309,25 @@ func runSplitCase(c *engine.Ctx, s *world.Server, node *world.Node, sc splitCase
 		case "base":
 			if registered[nodenet.UnauthenticatedNextProto] {
 				allowed = []string{nodenet.UnauthenticatedNextProto}
+			}
+		}
+		if closedName != "" {
+			// the sub-listener the router would pick first may be the closed one: then the connection is closed
+			touches := false
+			for _, a := range allowed {
+				if a == closedName {
+					touches = true
+				}
+			}
+			if touches {
+				if len(mine) == 0 {
+					r.Count("closed_because_the_sub_listener_was_closed", 1)
+					continue
+				}
+				if mine[0].listener == closedName {
+					r.Violation("delivered-by-closed-sub-listener", fmt.Sprintf("%s came out of sub-listener %q after it had been closed", cl.Name, closedName), witness)
+					continue
+				}
 			}
 		}
 		if len(mine) > 1 {
@@ -438,6 +489,11 @@ func runSplit(c *engine.Ctx) engine.Result {
 			splitCase{Topology: []string{nodenet.AuthenticatedNonSpecificNextProto}, LateConsumerMs: 3000, OwnSentinel: true})
 	}
 	cases = append(cases, late...)
+	for _, n := range []string{"A", nodenet.AuthenticatedNonSpecificNextProto, nodenet.UnauthenticatedNextProto} {
+		for _, native := range []bool{false, true} {
+			cases = append(cases, splitCase{Topology: []string{"A", "B", nodenet.AuthenticatedNonSpecificNextProto, nodenet.UnauthenticatedNextProto}, Native: native, CloseLookedUp: n})
+		}
+	}
 	r.Sample(cases[5])
 	r.Sample(map[string]any{"clients": splitClients})
 	engine.ForEach(len(cases), engine.Workers(), func(i int) { runSplitCase(c, s, er.Node, cases[i]) })
@@ -451,5 +507,7 @@ func runSplit(c *engine.Ctx) engine.Result {
 	r.Require("base_listener_closed_with_own_sentinel", 10)
 	r.Require("topologies_with_late_consumers", 1)
 	r.Require("topologies_with_repeated_lookups", 10)
+	r.Require("topologies_with_extra_protocols_in_listener_options", 10)
+	r.Require("topologies_with_a_closed_second_handle", 6)
 	return res
 }
